@@ -307,4 +307,33 @@ def extra(tier, seed, scratch, log):
         ob.detail = f'regex construct outside the translated subset: {exc}'
     obs.append(ob)
     log(f'[z3] {ob.detail}')
+    obs.append(native_sweep(log))
     return obs
+
+
+SWEEP_ALPHABET = ['a', 'Z', '_', '0', chr(10), chr(13), ' ', '.', ':', chr(0xe9), chr(0x663), chr(0x2028)]
+
+
+def native_sweep(log) -> Ob:
+    """Validation of the trusted base, not a deciding step: CrossHair's regex model does not give `$`
+    its match-before-a-final-newline meaning, so the identifier harnesses are backed by a native sweep
+    of NamespaceIds over all strings of length <= 3 from a 12-character alphabet (incl. newline)."""
+    import itertools
+    ob = Ob(name='native_identifier_sweep', engine='native', kind='validation', claim=False,
+            verdict='confirmed', module='props.c14',
+            bounds='all strings of length <= 3 over %d characters' % len(SWEEP_ALPHABET))
+    n = 0
+    for k in range(0, 4):
+        for tup in itertools.product(SWEEP_ALPHABET, repeat=k):
+            s = ''.join(tup)
+            n += 1
+            if not h_ident(s) or not h_nsids_t(s):
+                ob.verdict = 'refuted'
+                ob.call = f'h_ident({s!r})' if not h_ident(s) else f'h_nsids_t({s!r})'
+                ob.detail = f'native sweep: {ob.call} fails'
+                log(f'[native] {ob.detail}')
+                return ob
+    ob.paths = n
+    ob.validated = n
+    ob.detail = f'{n} strings agree with the reference'
+    return ob
